@@ -11,7 +11,7 @@
                     L [A 4; A n; A room]  read event: n bytes accepted into a buffer of `room` bytes
    input  = L [A 2; A fixed; L labels; scenario]     recorded trace of a higher layer, see run_recorded
 *)
-From EN Require Import Lib.Bytes Lib.Sx Conc.SockReader Gen.ParamsC10.
+From EN Require Import Lib.Bytes Lib.Sx Conc.SockReader Conc.BlockRecv Gen.ParamsC10.
 
 Definition dec_label (x : sx) : option label :=
   match x with
@@ -53,6 +53,26 @@ Definition run_recorded (fixed : bool) (ls : list label) : sx :=
   let '(s, os) := exec fixed init ls in
   L [L (map enc_obs (filter significant os)); B (delivered s); B (returned s); A 1].
 
+(* mode 1: the blocking receive loop (Conc/BlockRecv.v) over fixed-size records
+   input  = L [A 1; A size; A bufsize; L calls (A 1 = timeout 0 | A 0 = timeout > 0); L events; ...]
+            event = L [A 0; B chunk; A expired] | L [A 1] eof | L [A 2] transport raises TimeoutError
+   output = L results;  result = L [A 0; B packet] | L [A 1] TimeoutError | L [A 2] ConnectionAbortedError | L [A 9] *)
+Definition dec_event (x : sx) : option bevent :=
+  match x with
+  | L [A 0%Z; B b; e] => option_map (BData b) (as_bool e)
+  | L [A 1%Z] => Some BEof
+  | L [A 2%Z] => Some BTimeout
+  | _ => None
+  end.
+
+Definition enc_bres (r : @bres bytes) : sx :=
+  match r with
+  | BPacket p => L [A 0; B p]
+  | BTimedOut => L [A 1]
+  | BClosed => L [A 2]
+  | BStuck => L [A 9]
+  end%Z.
+
 Definition run (i : sx) : sx :=
   match i with
   | L (A 0%Z :: fx :: lbls :: _) =>
@@ -63,5 +83,10 @@ Definition run (i : sx) : sx :=
       do fixed <- (match fx with A 2%Z => Some repo_fixed | _ => as_bool fx end);
       do ls <- as_list_of dec_label lbls;
       run_recorded fixed ls
+  | L (A 1%Z :: A size :: A bufsize :: calls :: evs :: _) =>
+      do cs <- as_list_of as_bool calls;
+      do es <- as_list_of dec_event evs;
+      let '(_, _, rs) := brun_fixed (Z.to_nat size) (Z.to_nat bufsize) cs es in
+      L (map enc_bres rs)
   | _ => bad_input
   end.
